@@ -20,6 +20,7 @@ type MitigationParams struct {
 	Unassigned bool `json:"unassigned"` // the last replica row is -1 (no server)
 	ConfigBump bool `json:"config_bump"`
 	CloseAt    bool `json:"close_at"` // close the stream while an event waits at the gate
+	Stall      bool `json:"stall"`    // the DCP thread is descheduled for two observe intervals at every one of its scheduling points
 }
 
 // persistence feeds of one copy (uA = the branch the stream was opened on, uB = another branch)
@@ -65,6 +66,7 @@ func init() {
 				{Scenario: "c07_gate", Params: mustJSON(MitigationParams{Replicas: 1, Unassigned: true}), Bound: b, Shards: 2},
 				{Scenario: "c07_gate", Params: mustJSON(MitigationParams{Replicas: 1, ConfigBump: true}), Bound: b, Shards: 8},
 				{Scenario: "c07_gate", Params: mustJSON(MitigationParams{Replicas: 1, CloseAt: true}), Bound: b, Shards: 8},
+				{Scenario: "c07_gate", Params: mustJSON(MitigationParams{Replicas: 1, Stall: true}), Bound: 0, Shards: 8, Note: "the DCP thread stalls for two observe intervals at every scheduling point (lost wake-up between the gate's check and its wait)"},
 			}
 			if tier == "thorough" {
 				out = append(out, Instance{Scenario: "c07_gate", Params: mustJSON(MitigationParams{Replicas: 2}), Bound: 1, Shards: 16})
@@ -297,8 +299,12 @@ func gateMain(p MitigationParams) {
 	}
 	vrt.Window(true)
 	e.Stream.Open()
-	c.Append(0, marker(1, 3), symbolPacket("M", 1), symbolPacket("M", 2), symbolPacket("M", 3))
 	interval := e.Cfg.RollbackMitigation.Interval
+	if p.Stall {
+		k := vrt.Choose(90, true, "stall-at-point")
+		vrt.InjectAtomic("sim:dcp:events0", k, func() { vrt.Sleep(2 * interval) })
+	}
+	c.Append(0, marker(1, 3), symbolPacket("M", 1), symbolPacket("M", 2), symbolPacket("M", 3))
 	for tick := 0; tick < 7; tick++ {
 		vrt.Sleep(interval)
 		sampleThreshold(fmt.Sprintf("tick %d", tick))
